@@ -98,6 +98,8 @@ Commit ==
                 \cup Fail("C11", "committed-move-is-not-the-best-root-move", e.mv = cur)
                 \cup Fail("C12", "committed-score-is-not-the-best-root-score", Eq(ScoreOf(e.score), curScore))
                 \cup Fail("C11", "commit-depth", e.depth = commits)
+                \* the limit may expire right after any commit, and then this commit is the answer
+                \cup Fail("C11", "pass-committed-without-a-move-although-one-is-legal", legal # {} => e.mv # NoMove)
                 \cup Fail("C12", "first-pass-skipped-a-legal-move", commits = 0 => evaluated = legal)
        IN Report(B) /\ bad' = B
     /\ best' = Rec[l].mv /\ bestScore' = ScoreOf(Rec[l].score) /\ commits' = commits + 1 /\ phase' = "idle"
